@@ -135,6 +135,8 @@ def downscale_multiplier_int32_to_int16(a):
 def rounding_divide_by_pot(x, exponent):
     assert np.int32(x) == x
     assert np.int32(exponent) == exponent
+    # Python integers: for a NumPy operand `x & mask` is evaluated in x's type, which a mask of 31 or more bits leaves
+    x = int(x)
     mask = (1 << exponent) - 1
     remainder = x & mask
     threshold = mask >> 1
